@@ -349,3 +349,53 @@ DUP_WITNESSES = ["{ a b a }", "{ f(x: [1, 2, 1]) }", "{ a a b a }", "{ f(x: 1, y
 def gen_dup_document(rng, kind=None):
     kind = kind or rng.choice(sorted(DUP_KINDS))
     return DUP_KINDS[kind](rng)
+
+
+# ---- compositional string pool: atoms by character class ----
+# Every pair of classes co-occurs in one string (pairwise_strings), for quoted
+# strings (all classes) and for block strings (classes legal in a block string).
+ATOMS = {
+    "ascii": ["a", "xyz", "0"],
+    "quote": ["\"", "\"\""],
+    "backslash": ["\\", "\\\\", "\\n"],
+    "control": ["\x00", "\x07", "\x08\x0c", "\x1f", "\n", "\r", "\t"],
+    "bmp": ["é", "中文", "￿"],
+    "nonbmp": ["\U0001F600", "\U00010000", "\U0010FFFF"],
+    "high-surrogate": ["\ud800", "\udbff"],
+    "low-surrogate": ["\udc00", "\udfff"],
+    "reversed-pair": ["\udc00\ud800", "\ude00\ud83d"],
+    "separators": [" ", "\u0085", " ", " "],
+    "blank": [" ", "  ", "\t "],
+    "punct": ["{}", "#", ",", "$@!"],
+}
+BLOCK_CLASSES = ["ascii", "quote", "backslash", "bmp", "nonbmp", "high-surrogate", "low-surrogate",
+                 "reversed-pair", "separators", "blank", "punct"]
+
+
+def pairwise_strings(classes=None):
+    """deterministic: for every unordered pair of classes both orders of one atom each, plus each
+    class on its own"""
+    classes = sorted(classes or ATOMS)
+    out = []
+    for i, a in enumerate(classes):
+        out.append((a, a, ATOMS[a][0]))
+        for j in range(i + 1, len(classes)):
+            b = classes[j]
+            x = ATOMS[a][(i + j) % len(ATOMS[a])]
+            y = ATOMS[b][(i * j) % len(ATOMS[b])]
+            out.append((a, b, x + y))
+            out.append((b, a, y + x))
+    return out
+
+
+def random_string(rng, classes=None, lo=1, hi=4):
+    classes = sorted(classes or ATOMS)
+    return "".join(rng.choice(ATOMS[rng.choice(classes)]) for _ in range(rng.randint(lo, hi)))
+
+
+def block_body_of(s):
+    """a legal raw block-string body carrying s: no triple quote, no trailing quote / backslash"""
+    s = s.replace('"""', '" ""')
+    if s.endswith('"') or s.endswith("\\"):
+        s += "\n"
+    return s
